@@ -26,8 +26,6 @@ def _base(ex):
 
 def build(ctx):
     ex = sqlvc.Exec(inline_after=False)
-    if 'mark_job_group_complete' in ex.routines:
-        ex.stubs['mark_job_group_complete'] = sqlvc.havoc_stub(sqlvc.written_tables(ex.routines['mark_job_group_complete']))
     PENDING, ACTIVE, INACTIVE = intern('pending'), intern('active'), intern('inactive')
     X = z3.Int('X_instance')
     for name in PROCS_ONE_ATTEMPT:
